@@ -70,8 +70,17 @@ type fact struct {
 	at  *ssa.BasicBlock // holds in every block this one dominates
 }
 
+// predKey names the result of a pure error predicate on one value:
+// kerrors.IsNotFound(err), resource.IsNotAllowed(err), ... A predicate of an
+// (immutable) error value gives the same answer every time it is asked.
+type predKey struct {
+	name string
+	arg  ssa.Value
+}
+
 type fnInfo struct {
 	fn      *ssa.Function
+	pfacts  map[predKey][]fact
 	facts   map[ssa.Value][]fact
 	tracked map[*ssa.Phi]bool
 	joins   map[*ssa.BasicBlock][]*ssa.Phi // tracked phis per block
@@ -173,7 +182,7 @@ func constAbs(k *ssa.Const) absval {
 }
 
 func buildInfo(fn *ssa.Function) *fnInfo {
-	fi := &fnInfo{fn: fn, facts: map[ssa.Value][]fact{}, tracked: map[*ssa.Phi]bool{}, joins: map[*ssa.BasicBlock][]*ssa.Phi{},
+	fi := &fnInfo{fn: fn, pfacts: map[predKey][]fact{}, facts: map[ssa.Value][]fact{}, tracked: map[*ssa.Phi]bool{}, joins: map[*ssa.BasicBlock][]*ssa.Phi{},
 		live: map[*ssa.Phi]map[*ssa.BasicBlock]bool{}, ctxJoin: map[*ssa.BasicBlock]bool{}}
 	// dominating facts
 	for _, b := range fn.Blocks {
@@ -194,7 +203,9 @@ func buildInfo(fn *ssa.Function) *fnInfo {
 				val = tv.flip()
 			}
 			fi.facts[v] = append(fi.facts[v], fact{v, val, s})
-			// a fact about Wrap(x) is a fact about x and vice versa (handled in abs by unwrapping)
+			if k, ok := purePred(v); ok {
+				fi.pfacts[k] = append(fi.pfacts[k], fact{v, val, s})
+			}
 		}
 	}
 	// consumers: which phis decide a branch (directly, through wrappers, or by
@@ -345,6 +356,33 @@ func condPhis(c ssa.Value) []*ssa.Phi {
 	return out
 }
 
+// purePred recognises a static call of a func(error) bool.
+func purePred(v ssa.Value) (predKey, bool) {
+	c, ok := v.(*ssa.Call)
+	if !ok || c.Call.IsInvoke() || len(c.Call.Args) != 1 {
+		return predKey{}, false
+	}
+	f := c.Call.StaticCallee()
+	if f == nil || f.Signature.Recv() != nil || f.Signature.Results().Len() != 1 || f.Signature.Params().Len() != 1 {
+		return predKey{}, false
+	}
+	if !isErrorType(f.Signature.Params().At(0).Type()) {
+		return predKey{}, false
+	}
+	if b, ok := f.Signature.Results().At(0).Type().Underlying().(*types.Basic); !ok || b.Info()&types.IsBoolean == 0 {
+		return predKey{}, false
+	}
+	a := c.Call.Args[0]
+	for {
+		if ci, ok := a.(*ssa.ChangeInterface); ok {
+			a = ci.X
+			continue
+		}
+		break
+	}
+	return predKey{CalleeName(c), a}, true
+}
+
 // unwrap strips conversions and nil-preserving wrappers.
 func unwrap(v ssa.Value) ssa.Value {
 	for {
@@ -369,13 +407,25 @@ func unwrap(v ssa.Value) ssa.Value {
 type penv struct {
 	phi  map[*ssa.Phi]absval
 	pred map[*ssa.BasicBlock]int
+	// leaf / at: the non-phi value a phi stands for on this path and the block
+	// at whose end it was bound (facts dominating that block hold on the path)
+	leaf   map[*ssa.Phi]ssa.Value
+	at     map[*ssa.Phi]*ssa.BasicBlock
+	atEdge map[*ssa.Phi]int
+}
+
+func newEnv() *penv {
+	return &penv{phi: map[*ssa.Phi]absval{}, pred: map[*ssa.BasicBlock]int{}, leaf: map[*ssa.Phi]ssa.Value{}, at: map[*ssa.Phi]*ssa.BasicBlock{}, atEdge: map[*ssa.Phi]int{}}
 }
 
 func (e *penv) key() string {
-	if e == nil || (len(e.phi) == 0 && len(e.pred) == 0) {
+	if e == nil || (len(e.phi) == 0 && len(e.pred) == 0 && len(e.leaf) == 0) {
 		return ""
 	}
 	var parts []string
+	for p, l := range e.leaf {
+		parts = append(parts, "l"+strconv.Itoa(p.Block().Index)+"."+p.Name()+"="+l.Name()+"@"+strconv.Itoa(e.at[p].Index)+"."+strconv.Itoa(e.atEdge[p]))
+	}
 	for p, a := range e.phi {
 		parts = append(parts, "p"+strconv.Itoa(p.Block().Index)+"."+p.Name()+"="+strconv.Itoa(int(a)))
 	}
@@ -387,7 +437,7 @@ func (e *penv) key() string {
 }
 
 // abs evaluates v as seen at the end of block at under env.
-func (fi *fnInfo) abs(v ssa.Value, env *penv, at *ssa.BasicBlock, depth int) absval {
+func (fi *fnInfo) abs(v ssa.Value, env *penv, at *ssa.BasicBlock, edge int, depth int) absval {
 	if depth > 8 {
 		return unk
 	}
@@ -407,15 +457,43 @@ func (fi *fnInfo) abs(v ssa.Value, env *penv, at *ssa.BasicBlock, depth int) abs
 		if neverNil[CalleeName(x)] {
 			return nonzero
 		}
+		if k, ok := purePred(x); ok {
+			for _, f := range fi.pfacts[k] {
+				if f.v != v && (f.at == at || f.at.Dominates(at)) {
+					return f.val
+				}
+			}
+			if ev, val := fi.edgeFact(at, edge); ev != nil && ev != v {
+				if k2, ok := purePred(ev); ok && k2 == k {
+					return val
+				}
+			}
+			// the argument is a phi the path has bound to a value: ask about that value
+			if p, isPhi := k.arg.(*ssa.Phi); isPhi && env != nil {
+				if l, ok := env.leaf[p]; ok {
+					bat := env.at[p]
+					for _, f := range fi.pfacts[predKey{k.name, l}] {
+						if f.at == bat || f.at.Dominates(bat) {
+							return f.val
+						}
+					}
+					if ev, val := fi.edgeFact(bat, env.atEdge[p]); ev != nil {
+						if k2, ok := purePred(ev); ok && k2 == (predKey{k.name, l}) {
+							return val
+						}
+					}
+				}
+			}
+		}
 	case *ssa.UnOp:
 		if x.Op == token.NOT {
-			return fi.abs(x.X, env, at, depth+1).flip()
+			return fi.abs(x.X, env, at, edge, depth+1).flip()
 		}
 	case *ssa.BinOp:
 		if x.Op == token.EQL || x.Op == token.NEQ {
 			in, tv := condAtoms(x)
 			if in != ssa.Value(x) {
-				a := fi.abs(in, env, at, depth+1)
+				a := fi.abs(in, env, at, edge, depth+1)
 				if a == unk {
 					return unk
 				}
@@ -431,7 +509,26 @@ func (fi *fnInfo) abs(v ssa.Value, env *penv, at *ssa.BasicBlock, depth int) abs
 			return f.val
 		}
 	}
+	if ev, val := fi.edgeFact(at, edge); ev != nil && ev == v {
+		return val
+	}
 	return unk
+}
+
+// edgeFact is what taking out-edge idx of b establishes: (value, abstract value).
+func (fi *fnInfo) edgeFact(b *ssa.BasicBlock, idx int) (ssa.Value, absval) {
+	if idx < 0 || len(b.Instrs) == 0 || len(b.Succs) != 2 || b.Succs[0] == b.Succs[1] {
+		return nil, unk
+	}
+	ifi, ok := b.Instrs[len(b.Instrs)-1].(*ssa.If)
+	if !ok {
+		return nil, unk
+	}
+	v, tv := condAtoms(ifi.Cond)
+	if idx == 1 {
+		tv = tv.flip()
+	}
+	return v, tv
 }
 
 // decide returns which successor index of b is the only feasible one under
@@ -444,7 +541,7 @@ func (fi *fnInfo) decide(b *ssa.BasicBlock, env *penv) int {
 	if !ok {
 		return -1
 	}
-	a := fi.abs(ifi.Cond, env, b, 0)
+	a := fi.abs(ifi.Cond, env, b, -1, 0)
 	switch a {
 	case nonzero:
 		return 0
@@ -457,7 +554,7 @@ func (fi *fnInfo) decide(b *ssa.BasicBlock, env *penv) int {
 // enter computes the environment after taking edge (b -> b.Succs[i]).
 func (fi *fnInfo) enter(b *ssa.BasicBlock, i int, env *penv) *penv {
 	s := b.Succs[i]
-	ne := &penv{phi: map[*ssa.Phi]absval{}, pred: map[*ssa.BasicBlock]int{}}
+	ne := newEnv()
 	// predecessor index of this edge in s (ambiguous when b reaches s twice)
 	pi, cnt := -1, 0
 	for j, p := range s.Preds {
@@ -474,6 +571,13 @@ func (fi *fnInfo) enter(b *ssa.BasicBlock, i int, env *penv) *penv {
 				ne.phi[p] = a
 			}
 		}
+		for p, l := range env.leaf {
+			if p.Block() != s && fi.live[p][s] {
+				ne.leaf[p] = l
+				ne.at[p] = env.at[p]
+				ne.atEdge[p] = env.atEdge[p]
+			}
+		}
 		for jb, j := range env.pred {
 			if jb != s && fi.joinLive(jb, s) {
 				ne.pred[jb] = j
@@ -482,8 +586,25 @@ func (fi *fnInfo) enter(b *ssa.BasicBlock, i int, env *penv) *penv {
 	}
 	if ps := fi.joins[s]; len(ps) > 0 && cnt == 1 {
 		for _, p := range ps {
-			if a := fi.abs(p.Edges[pi], env, b, 0); a != unk {
+			if a := fi.abs(p.Edges[pi], env, b, i, 0); a != unk {
 				ne.phi[p] = a
+			}
+			in := p.Edges[pi]
+			for {
+				if ci, ok := in.(*ssa.ChangeInterface); ok {
+					in = ci.X
+					continue
+				}
+				break
+			}
+			if q, isPhi := in.(*ssa.Phi); isPhi {
+				if env != nil {
+					if l, ok := env.leaf[q]; ok {
+						ne.leaf[p], ne.at[p], ne.atEdge[p] = l, env.at[q], env.atEdge[q]
+					}
+				}
+			} else if _, isConst := in.(*ssa.Const); !isConst {
+				ne.leaf[p], ne.at[p], ne.atEdge[p] = in, b, i
 			}
 		}
 		ne.pred[s] = pi
@@ -545,6 +666,11 @@ func reachSens(startBlocks []*ssa.BasicBlock, startEdges []Edge, avoid map[Edge]
 // reachOpts: within (when non-nil) confines the search to those blocks;
 // blocks of noExpand are reached but their successors are not followed.
 func reachOpts(startBlocks []*ssa.BasicBlock, startEdges []Edge, avoid map[Edge]bool, within, noExpand map[*ssa.BasicBlock]bool) (map[*ssa.BasicBlock]bool, map[*ssa.BasicBlock]*ssa.BasicBlock) {
+	return reachVisit(startBlocks, startEdges, avoid, within, noExpand, nil)
+}
+
+// reachVisit additionally calls visit for every (block, path knowledge) state.
+func reachVisit(startBlocks []*ssa.BasicBlock, startEdges []Edge, avoid map[Edge]bool, within, noExpand map[*ssa.BasicBlock]bool, visit func(*ssa.BasicBlock, *fnInfo, *penv)) (map[*ssa.BasicBlock]bool, map[*ssa.BasicBlock]*ssa.BasicBlock) {
 	seen := map[*ssa.BasicBlock]bool{}
 	parent := map[*ssa.BasicBlock]*ssa.BasicBlock{}
 	var fn *ssa.Function
@@ -583,7 +709,7 @@ func reachOpts(startBlocks []*ssa.BasicBlock, startEdges []Edge, avoid map[Edge]
 			if visited[b][""] {
 				return
 			}
-			env, k = &penv{}, ""
+			env, k = newEnv(), ""
 		}
 		visited[b][k] = true
 		if !seen[b] {
@@ -595,13 +721,13 @@ func reachOpts(startBlocks []*ssa.BasicBlock, startEdges []Edge, avoid map[Edge]
 		q = append(q, sstate{b, env})
 	}
 	for _, b := range startBlocks {
-		push(b, &penv{}, nil)
+		push(b, newEnv(), nil)
 	}
 	for _, e := range startEdges {
 		if avoid[Edge{From: e.From, Idx: e.Idx}] || avoid[e] {
 			continue
 		}
-		env := &penv{phi: map[*ssa.Phi]absval{}, pred: map[*ssa.BasicBlock]int{}}
+		env := newEnv()
 		seedVia(fi, e.Via, env)
 		// the branch taken is itself a fact (dominating facts cover the single-pred case)
 		if within != nil && !within[e.To()] {
@@ -613,6 +739,9 @@ func reachOpts(startBlocks []*ssa.BasicBlock, startEdges []Edge, avoid map[Edge]
 	for len(q) > 0 {
 		st := q[0]
 		q = q[1:]
+		if visit != nil {
+			visit(st.b, fi, st.env)
+		}
 		if noExpand[st.b] {
 			continue
 		}
@@ -659,10 +788,84 @@ func seedVia(fi *fnInfo, via string, env *penv) {
 		env.pred[jb] = pi
 		if pi < len(jb.Preds) {
 			for _, p := range fi.joins[jb] {
-				if a := fi.abs(p.Edges[pi], nil, jb.Preds[pi], 0); a != unk {
+				if a := fi.abs(p.Edges[pi], nil, jb.Preds[pi], -1, 0); a != unk {
 					env.phi[p] = a
 				}
 			}
 		}
 	}
+}
+
+// ErrReturn is one way control leaves the function: the error value returned
+// (or stored into the spilled error result) and what the path knows about it.
+type ErrReturn struct {
+	At     ssa.Instruction
+	Val    ssa.Value
+	NonNil bool
+	Nil    bool
+}
+
+// ErrorReturnsFrom explores, path-sensitively, everything reachable from the
+// start edges and reports each return of the function's last (error) result
+// together with its nil-ness on that path. Functions with a defer spill their
+// results: there the store into the error slot is the return event.
+func ErrorReturnsFrom(starts []Edge, avoid []Edge) []ErrReturn {
+	if len(starts) == 0 {
+		return nil
+	}
+	fn := starts[0].From.Parent()
+	nres := fn.Signature.Results().Len()
+	if nres == 0 || !isErrorType(fn.Signature.Results().At(nres-1).Type()) {
+		return nil
+	}
+	slots := map[*ssa.Alloc]bool{}
+	for _, b := range fn.Blocks {
+		if r, ok := b.Instrs[len(b.Instrs)-1].(*ssa.Return); ok && len(r.Results) == nres {
+			if ld, ok := r.Results[nres-1].(*ssa.UnOp); ok && ld.Op == token.MUL {
+				if a, ok := ld.X.(*ssa.Alloc); ok {
+					slots[a] = true
+				}
+			}
+		}
+	}
+	av := map[Edge]bool{}
+	for _, e := range avoid {
+		av[e] = true
+	}
+	type key struct {
+		in  ssa.Instruction
+		val absval
+	}
+	dedup := map[key]bool{}
+	var out []ErrReturn
+	add := func(in ssa.Instruction, v ssa.Value, a absval) {
+		if dedup[key{in, a}] {
+			return
+		}
+		dedup[key{in, a}] = true
+		out = append(out, ErrReturn{At: in, Val: v, NonNil: a == nonzero, Nil: a == zero})
+	}
+	reachVisit(nil, starts, av, nil, nil, func(b *ssa.BasicBlock, fi *fnInfo, env *penv) {
+		for _, in := range b.Instrs {
+			switch x := in.(type) {
+			case *ssa.Store:
+				if a, ok := x.Addr.(*ssa.Alloc); ok && slots[a] {
+					add(x, x.Val, fi.abs(x.Val, env, b, -1, 0))
+				}
+			case *ssa.Return:
+				if len(x.Results) != nres {
+					continue
+				}
+				v := x.Results[nres-1]
+				if ld, ok := v.(*ssa.UnOp); ok && ld.Op == token.MUL {
+					if a, ok := ld.X.(*ssa.Alloc); ok && slots[a] {
+						continue // reported at the store
+					}
+				}
+				add(x, v, fi.abs(v, env, b, -1, 0))
+			}
+		}
+	})
+	sort.Slice(out, func(i, j int) bool { return out[i].At.Pos() < out[j].At.Pos() })
+	return out
 }
